@@ -2,17 +2,18 @@
 From Pydra Require Import Base.Prelude Model.FileHash Spec.FileHash Proofs.FileHash.
 
 (* The property at full strength, for the code as it is now (key = inode, mtime, ctime, size of every
-   hashed file): for every kernel clock that stamps later operations with larger values, every
-   history of writes / utimes / renames / copies / links / unlinks / symlinks / mkdirs interleaved
+   file whose content enters the hash: the file a File resolves to, every regular file at any depth
+   below a Directory): for every nesting of directories (parent), for every kernel clock that stamps
+   later operations with larger values, every history of writes / utimes / renames / copies / links / unlinks / symlinks / mkdirs interleaved
    with hash requests of any number of processes (each with or without a long-lived PersistentCache
    object, directly or through Task._hash) and cache clean-ups returns, at every hash request, the
    content hash of what the file or directory holds at that moment. *)
 Definition C09_full_statement : Prop :=
-  forall now : nat -> nat, (forall i j, i < j -> now i < now j) ->
-    hashes_reflect_content now (model_outputs now K_fixed).
+  forall (parent : name -> option name) (now : nat -> nat), (forall i j, i < j -> now i < now j) ->
+    hashes_reflect_content now parent (model_outputs now parent (K_fixed parent)).
 
 Theorem C09_full : C09_full_statement.
-Proof. intros now H h. exact (fixed_key_outputs now H h). Qed.
+Proof. intros parent now H h. exact (fixed_key_outputs now parent H h). Qed.
 Print Assumptions C09_full.
 
 (* For ANY file system, ANY key projection K and ANY content hash: if along every history of
@@ -40,34 +41,35 @@ Print Assumptions C09_inv_under_key.
 (* The key of the current code meets that condition on the Unix model — this is where the
    assumption about st_ctime is used. *)
 Theorem C09_ctime_key_sound :
-  forall now : nat -> nat, (forall i j, i < j -> now i < now j) ->
-    key_sound fsys target key digest fop target_exists K_fixed content_hash (fstep now) fs_empty.
-Proof. exact K_fixed_sound. Qed.
+  forall (parent : name -> option name) (now : nat -> nat), (forall i j, i < j -> now i < now j) ->
+    key_sound fsys target key digest fop target_exists (K_fixed parent) (content_hash parent)
+              (fstep now parent) fs_empty.
+Proof. intros parent now H. exact (K_fixed_sound now parent H). Qed.
 Print Assumptions C09_ctime_key_sound.
 
 Theorem C09_store_current :
-  forall now : nat -> nat, (forall i j, i < j -> now i < now j) ->
+  forall (parent : name -> option name) (now : nat -> nat), (forall i j, i < j -> now i < now j) ->
     forall h : hist,
-      Forall (fun x => entries_current fsys target key digest target_exists K_fixed content_hash (fst x))
-             (model_states now K_fixed h).
-Proof. exact fixed_key_entries_current. Qed.
+      Forall (fun x => entries_current fsys target key digest target_exists (K_fixed parent) (content_hash parent) (fst x))
+             (model_states now parent (K_fixed parent) h).
+Proof. intros parent now H. exact (fixed_key_entries_current now parent H). Qed.
 Print Assumptions C09_store_current.
 
 (* The key before commit 39d1fa1f, (type, paths, lstat mtime_ns), does not have the property. *)
 Definition C09_mtime_key_statement : Prop :=
-  forall now : nat -> nat, (forall i j, i < j -> now i < now j) ->
-    hashes_reflect_content now (model_outputs now K_pinned).
+  forall (parent : name -> option name) (now : nat -> nat), (forall i j, i < j -> now i < now j) ->
+    hashes_reflect_content now parent (model_outputs now parent K_pinned).
 
 Theorem C09_refuted_mtime_key : ~ C09_mtime_key_statement.
-Proof. intros H. exact (pinned_stale_utime (H now0 now0_strict h_utime)). Qed.
+Proof. intros H. exact (pinned_stale_utime (H parent0 now0 now0_strict h_utime)). Qed.
 Print Assumptions C09_refuted_mtime_key.
 
 Theorem C09_refuted_mtime_key_histories :
-  model_outputs now0 K_pinned h_rename <> spec_out now0 h_rename /\
-  model_outputs now0 K_pinned h_copy <> spec_out now0 h_copy /\
-  model_outputs now0 K_pinned h_dir <> spec_out now0 h_dir /\
-  model_outputs now0 K_pinned h_symlink <> spec_out now0 h_symlink /\
-  model_outputs now0 K_pinned h_two_procs <> spec_out now0 h_two_procs.
+  model_outputs now0 parent0 K_pinned h_rename <> spec_out now0 parent0 h_rename /\
+  model_outputs now0 parent0 K_pinned h_copy <> spec_out now0 parent0 h_copy /\
+  model_outputs now0 parent0 K_pinned h_dir <> spec_out now0 parent0 h_dir /\
+  model_outputs now0 parent0 K_pinned h_symlink <> spec_out now0 parent0 h_symlink /\
+  model_outputs now0 parent0 K_pinned h_two_procs <> spec_out now0 parent0 h_two_procs.
 Proof.
   repeat split.
   - exact pinned_stale_rename.
@@ -78,16 +80,26 @@ Proof.
 Qed.
 Print Assumptions C09_refuted_mtime_key_histories.
 
+(* A key that stats only a directory's own entries ("a nested directory is covered by its own
+   stat") does not have the property either: a file two levels down rewritten in place moves no
+   directory stamp. *)
+Definition C09_shallow_key_statement : Prop :=
+  forall (parent : name -> option name) (now : nat -> nat), (forall i j, i < j -> now i < now j) ->
+    hashes_reflect_content now parent (model_outputs now parent (K_shallow parent)).
+Theorem C09_refuted_shallow_key : ~ C09_shallow_key_statement.
+Proof. intros H. exact (shallow_stale_nested (H parent0 now0 now0_strict h_nested)). Qed.
+Print Assumptions C09_refuted_shallow_key.
+
 (* The cache is a cache: a second request with nothing changed in between is answered from the
    store / table and adds nothing (so "never cache" is not what the theorems describe). *)
 Theorem C09_cache_effective :
   forall (s : fsys) (cs : cstate key digest) p m t,
     target_exists t s = true ->
-    c_store (snd (do_hash fsys target key digest key_eqb target_exists K_fixed content_hash s
-                    (snd (do_hash fsys target key digest key_eqb target_exists K_fixed content_hash s cs p m t)) p m t))
-    = c_store (snd (do_hash fsys target key digest key_eqb target_exists K_fixed content_hash s cs p m t))
-    /\ final_store_size K_fixed h_reuse = 2
-    /\ List.length (model_outputs now0 K_fixed h_reuse) = 5.
+    c_store (snd (do_hash fsys target key digest key_eqb target_exists (K_fixed parent0) (content_hash parent0) s
+                    (snd (do_hash fsys target key digest key_eqb target_exists (K_fixed parent0) (content_hash parent0) s cs p m t)) p m t))
+    = c_store (snd (do_hash fsys target key digest key_eqb target_exists (K_fixed parent0) (content_hash parent0) s cs p m t))
+    /\ final_store_size (K_fixed parent0) h_reuse = 2
+    /\ List.length (model_outputs now0 parent0 (K_fixed parent0) h_reuse) = 5.
 Proof.
   intros s cs p m t E. split; [|split].
   - apply second_hash_is_a_hit; [|exact E]. intros a. apply (proj2 (key_eqb_spec a a)). reflexivity.
@@ -102,10 +114,11 @@ Print Assumptions C09_cache_effective.
 Example C09_clock_example : forall i j, i < j -> now0 i < now0 j.
 Proof. exact now0_strict. Qed.
 Example C09_full_on_the_old_witnesses :
-  model_outputs now0 K_fixed h_utime = spec_out now0 h_utime /\
-  model_outputs now0 K_fixed h_rename = spec_out now0 h_rename /\
-  model_outputs now0 K_fixed h_copy = spec_out now0 h_copy /\
-  model_outputs now0 K_fixed h_dir = spec_out now0 h_dir /\
-  model_outputs now0 K_fixed h_symlink = spec_out now0 h_symlink /\
-  model_outputs now0 K_fixed h_two_procs = spec_out now0 h_two_procs.
+  model_outputs now0 parent0 (K_fixed parent0) h_utime = spec_out now0 parent0 h_utime /\
+  model_outputs now0 parent0 (K_fixed parent0) h_rename = spec_out now0 parent0 h_rename /\
+  model_outputs now0 parent0 (K_fixed parent0) h_copy = spec_out now0 parent0 h_copy /\
+  model_outputs now0 parent0 (K_fixed parent0) h_dir = spec_out now0 parent0 h_dir /\
+  model_outputs now0 parent0 (K_fixed parent0) h_symlink = spec_out now0 parent0 h_symlink /\
+  model_outputs now0 parent0 (K_fixed parent0) h_two_procs = spec_out now0 parent0 h_two_procs /\
+  model_outputs now0 parent0 (K_fixed parent0) h_nested = spec_out now0 parent0 h_nested.
 Proof. vm_compute. repeat split. Qed.
